@@ -14,7 +14,7 @@ Decided:
 """
 from ..flow import arg_origins, origins
 from ..mir import op_const, op_local, try_edges
-from ..util import (POLL, agg_assigns, bool_edges, call_true_false_edges, polls, result_return_kinds, switches_on,
+from ..util import (POLL, effective_callers, flag_switches, agg_assigns, bool_edges, call_true_false_edges, polls, result_return_kinds, switches_on,
                     unreachable_without, where)
 
 LEVEL = "other"
@@ -92,10 +92,10 @@ def check(ctx):
             r = b.reachable([tg], removed_nodes=[w.bb for w in writes])
             ctx.require(R1, not (set(okb) & r), c.where(), "after the key write the only way to success is through write_certificate", [RC, "key-without-certificate"])
     # who may write the key
-    callers = prog.callers_of(SETK)
-    ctx.require(R1, callers <= {STORE + "::{closure#0}"}, "acmed/src/storage.rs", "storage::set_keypair is called only by certificate::store_key_pair (%s)" % sorted(callers), [SETK, "callers"])
-    callers = prog.callers_of(STORE)
-    ctx.require(R1, callers <= {RC + "::{closure#0}"}, "acmed/src/acme_proto/certificate.rs", "store_key_pair is called only by request_certificate (%s)" % sorted(callers), [STORE, "callers"])
+    callers = effective_callers(prog, SETK)
+    ctx.require(R1, callers <= {STORE}, "acmed/src/storage.rs", "storage::set_keypair is called only by certificate::store_key_pair (%s)" % sorted(callers), [SETK, "callers"])
+    callers = effective_callers(prog, STORE)
+    ctx.require(R1, callers <= {RC}, "acmed/src/acme_proto/certificate.rs", "store_key_pair is called only by request_certificate (%s)" % sorted(callers), [STORE, "callers"])
 
     R2 = ctx.rule("R2", "certificate and key are written only after the body parsed (from_pem Ok) and its public key matched the CSR key (has_public_key_of true)")
     fp = b.calls_to(FROMPEM)
@@ -155,10 +155,16 @@ def check(ctx):
 
     new_key_flag_rule(ctx, ctx.rule("R3", "the new-key flag is a per-path constant tied to the key's origin; new keys are stored before success, reused keys are not rewritten"))
 
+    R5 = ctx.rule("R5", "a rewritten certificate/key file holds the new content only: opened with truncate(true)|create_new(true), never append (shared with C02.R1) — a longer old chain must not leave a tail that makes the file unparsable")
+    from .c02 import open_rule
+    open_rule(ctx, R5)
+
     R4 = ctx.rule("R4", "no Result<_, Error|HttpError> is discarded on the renewal path (exception: best-effort nonce prefetch in http::post)")
     reach = prog.reach([RC + "::{closure#0}"])
     n = 0
     for k in sorted(reach):
+        if prog.absorbed(k):
+            continue   # new helper, examined inside its callers' inlined views
         body = prog.body(k)
         if body.crate != "acmed":
             continue
@@ -199,19 +205,13 @@ def new_key_flag_rule(ctx, R3):
                     [GKP, "flag-origin", str(flag["bool"])])
     # in request_certificate: store iff flag
     stores = b.calls_to(STORE, SETK)
-    flag_l = b.locals_named("is_new_key")
-    if not flag_l:
-        ctx.fail(R3, "%s:%s" % (b.file, b.line), "request_certificate does not keep the new-key flag (`is_new_key`)", [RC, "flag-missing"])
+    # the flag is whatever bool carries field 1 of get_key_pair's (KeyPair, bool) result — found by provenance, not by name
+    def is_flag(sl):
+        return any(x.is_or_polls(GKP) for x in sl.calls) and ("tuple", 1) in sl.fields and ("tuple", 0) not in sl.fields
+    t_edges, f_edges = flag_switches(b, is_flag)
+    if not t_edges:
+        ctx.fail(R3, "%s:%s" % (b.file, b.line), "request_certificate never tests the new-key flag returned by get_key_pair", [RC, "flag-missing"])
         return
-    fl = origins(b, flag_l[0])
-    ctx.require(R3, any(x.is_or_polls(GKP) for x in fl.calls), "%s:%s" % (b.file, b.line), "is_new_key comes from get_key_pair", [RC, "flag-source"])
-    t_edges, f_edges = [], []
-    for sbb, neg in switches_on(b, flag_l[0]):
-        t, f = bool_edges(b, sbb)
-        if neg:
-            t, f = f, t
-        t_edges.append((sbb, t))
-        f_edges.append((sbb, f))
     good, hit = unreachable_without(b, [c.bb for c in stores], removed_edges=t_edges)
     ctx.require(R3, bool(t_edges) and good, stores[0].where() if stores else "-", "the key file is (re)written only when the key is new", [RC, "reused-key-rewritten"])
     okb, errb, fwd = result_return_kinds(b)
